@@ -15,6 +15,8 @@
 //   params <smoothed 0|1> <full_samples> <min_samples> <use_counts 0|1>
 //   build                         define colvars, allocate grids
 //   load <n>   then n x "<i0..> <count> <g0..>"     set count and gradient *sum* of a bin directly
+//   loadbin <file>                binary form of load for big grids: nb int64 counts, then nb*nd doubles
+//                                 (gradient sums), both in the grid's memory order
 //   acc <n>    then n x "<i0..> <f0..>"             acc_force(bin, f); update_div_neighbors(bin)  (ABF order)
 //   accnodiv <n> ...                                acc_force only
 //   setdiv                        pmf->set_div()
@@ -385,6 +387,28 @@ int run_file(char const *path)
         done++;
       }
       C.emit("\"ev\":\"" + c + "\",\"n\":" + std::to_string(done));
+    } else if (c == "loadbin") {
+      std::string const path = next();
+      if (built) {
+        size_t const nb = C.samples->raw_data_num();
+        size_t const nd = C.dims.size();
+        std::vector<long long> cnt(nb);
+        std::vector<double> sm(nb * nd);
+        FILE *f = fopen(path.c_str(), "rb");
+        bool ok = f != nullptr;
+        if (ok) ok = fread(cnt.data(), sizeof(long long), nb, f) == nb;
+        if (ok) ok = fread(sm.data(), sizeof(double), nb * nd, f) == nb * nd;
+        if (f) fclose(f);
+        if (ok && C.gradients->raw_data_num() == nb * nd) {
+          if (C.use_counts) {
+            for (size_t i = 0; i < nb; i++) C.samples->set_value(i, size_t(cnt[i]));
+          }
+          C.gradients->raw_data_in(sm.data());
+          C.emit("\"ev\":\"loadbin\",\"n\":" + std::to_string(nb));
+        } else {
+          C.emit("\"ev\":\"fail\",\"what\":\"loadbin\"");
+        }
+      }
     } else if (c == "setdiv") {
       if (built) C.pmf->set_div();
     } else if (c == "div") {
